@@ -159,6 +159,8 @@ PROPS["C20"] = {
     "assumptions": ["corrupted brotli/identity streams may decode to arbitrary bytes (no integrity check); only crash-freedom is asserted for malformed input",
                     "decoded output is capped at 8 MiB"],
     "units": [
+        # the reference client's requests under each compression, decoded by a plain HTTP server with the independent decoder of the announced name
+        {"name": "C20ClientWire", "pkg": RC, "test": "TestVerifC20ClientWire", "kind": "enum", "timeout": 600},
         {"name": "C20Histories", "pkg": COMP, "test": "TestVerifC20Histories", "kind": "rapid",
          "checks": {"quick": 1500, "thorough": 20000}, "shards": {"quick": 4, "thorough": 16}},
         {"name": "C20Enum", "pkg": COMP, "test": "TestVerifC20Enum", "kind": "enum",
